@@ -106,6 +106,27 @@ pub async fn server_logs(world: &NetWorld) -> Result<LogSet, String> {
     }
 }
 
+/// Folder ids for which the server's account log holds a DeleteFolder event:
+/// their folder logs are removed as the accepted consequence of that event.
+pub async fn server_deleted_folders(world: &NetWorld) -> BTreeSet<String> {
+    let mut out = BTreeSet::new();
+    let id = world.devices[0].dev.account_id;
+    if let Some(s) = world.server.account(&id).await {
+        let s = s.read().await;
+        if let Ok(l) = s.account_log().await {
+            let l = l.read().await;
+            let stream = l.event_stream(false).await;
+            pin_mut!(stream);
+            while let Some(Ok((_, ev))) = stream.next().await {
+                if let sos_core::events::AccountEvent::DeleteFolder(fid) = ev {
+                    out.insert(format!("folder:{fid}"));
+                }
+            }
+        }
+    }
+    out
+}
+
 pub async fn device_log_lens(dev: &Device) -> BTreeMap<String, usize> {
     device_logs(dev)
         .await
@@ -959,7 +980,14 @@ pub async fn concurrent_sync(world: &mut NetWorld, s: &Value, rec: &mut Recorder
         // accepted event is dropped
         if let Ok(now) = server_logs(world).await {
             if !rewritten {
+                let deleted = server_deleted_folders(world).await;
                 for (k, before) in &server_before {
+                    if !now.contains_key(k) && deleted.contains(k) {
+                        // the account log now holds DeleteFolder for it: the
+                        // folder log went away with an accepted event
+                        rec.stats.probe("c09.folder_log_removed_by_accepted_delete");
+                        continue;
+                    }
                     let after = now.get(k).cloned().unwrap_or_default();
                     let mut need: BTreeMap<[u8; 32], i64> = BTreeMap::new();
                     for r in before {
